@@ -828,7 +828,7 @@ fn cli_gate(bin: &std::path::Path, input: &Input) -> Result<bool, Outcome> {
         }
         let _ = std::fs::write(inc.join(format!("{}.aldrin", o.name)), o.source.as_ref().unwrap());
     }
-    let res = std::process::Command::new(bin)
+    let child = std::process::Command::new(bin)
         .arg("rust")
         .arg("-I")
         .arg(&inc)
@@ -838,10 +838,27 @@ fn cli_gate(bin: &std::path::Path, input: &Input) -> Result<bool, Outcome> {
         .stdin(std::process::Stdio::null())
         .stdout(std::process::Stdio::null())
         .stderr(std::process::Stdio::null())
-        .status();
-    let status = match res {
-        Ok(s) => s,
+        .spawn();
+    let mut child = match child {
+        Ok(c) => c,
         Err(_) => return Ok(false),
+    };
+    // a CLI run that does not finish is harness trouble for this sample, not a verdict
+    let mut waited_ms = 0u64;
+    let status = loop {
+        match child.try_wait() {
+            Ok(Some(s)) => break s,
+            Ok(None) if waited_ms < 10_000 => {
+                std::thread::sleep(std::time::Duration::from_millis(5));
+                waited_ms += 5;
+            }
+            _ => {
+                let _ = child.kill();
+                let _ = child.wait();
+                let _ = std::fs::remove_dir_all(&dir);
+                return Ok(false);
+            }
+        }
     };
     let written: Vec<String> = std::fs::read_dir(&out)
         .map(|rd| rd.filter_map(|e| e.ok().map(|e| e.file_name().to_string_lossy().to_string())).collect())
